@@ -48,3 +48,8 @@ def extra_years_arg(window=45):
         return []
     ys = sorted(y for y in ys if 1 <= y <= 9999)
     return ["extra=" + ",".join(str(y) for y in ys)] if ys else []
+
+
+# step counts that are multiples of the cycle lengths in play (7 days, 10 stems, 12 branches / months, 13 lunar months, 24 terms,
+# 60 pillars, 235 lunations of the 19-year cycle, 365/366 days) and their neighbours — for every stepping request generator
+CYCLE_STEPS = sorted(set(s * k + o for s in (7, 10, 12, 13, 24, 60, 235, 365, 366) for k in (1, 2, 5, -1, -2, -5) for o in (0, 1, -1)))
